@@ -199,3 +199,24 @@ ADDENDA3 = {
 for _k, _v in ADDENDA3.items():
     if _k in CHECKS and _v not in CHECKS[_k]["text"]:
         CHECKS[_k]["text"] += _v
+
+ADDENDA4 = {
+ "C01": " A first load held inside its transfer while a refresh pass fails for another location.",
+ "C03": " The cell 'CRL lists the certificate' under contention (parallel handshakes and refresh passes, four modes).",
+ "C04": " Refresh under verify_log/none to a list of another signer, restart under verify with the origin gone.",
+ "C06": " Overlapping reads (nested and parallel), each judged like a lone read; element starts at window boundary -3..+1.",
+ "C07": " Documents arriving at a refresh over a CRL in force: real loader, reader, persisting processor and both stores.",
+ "C08": " LSwapFault replayed with an injected fault; a late background load of a superseded list.",
+ "C10": " Loads that fail at the swap (injected and real fault; strict and lenient).",
+ "C11": " A late background load of a superseded list.",
+ "C12": " Every scenario under verify and none; crash images at rest; kill rounds under rotating modes.",
+ "C13": " Parallel first loads from two CAs with 0/3/1/5 trusted bystander certificates.",
+ "C15": " Unavailability as 503/404/500 with an error page; pass watchdog.",
+ "C16": " Restart that finds the origin gone (origin down wherever the model fetches nothing).",
+ "C17": " A big list that arrives after the validator met a damaged store of another location.",
+ "C19": " Caddyfile directives in shuffled orders.",
+ "C20": " Locations that are sets of URLs.",
+}
+for _k, _v in ADDENDA4.items():
+    if _k in CHECKS and _v not in CHECKS[_k]["text"]:
+        CHECKS[_k]["text"] += _v
